@@ -219,11 +219,19 @@ def model_failures(seed, n):
             # the 2 rows are the north / east differences: independent of the measured vertical component and
             # of the order in which the labelled columns of the measurement table are stored
             for j in range(1, 5):
-                for what, dfv in ((f"columns stored as {list(stored(df, j).columns)}", stored(df, j)),
-                                  (f"measured {vcol} changed, columns {list(stored(df, j - 1).columns)}",
-                                   stored(other_vertical(df, vcol), j - 1))):
-                    zz, HH, RR = mk(dfv).compute_matrices(t, pva, em)
-                    zz = np.asarray(zz, dtype=float)
+                variants = [(f"columns stored as {list(stored(df, j).columns)}", stored(df, j))]
+                if name == 'NedVelocity':      # (for Position the measured altitude legitimately enters the
+                    #                             metres-per-degree scale of the horizontal differences)
+                    variants.append((f"measured {vcol} changed, columns {list(stored(df, j - 1).columns)}",
+                                     stored(other_vertical(df, vcol), j - 1)))
+                for what, dfv in variants:
+                    try:
+                        zz, HH, RR = mk(dfv).compute_matrices(t, pva, em)
+                        zz = np.asarray(zz, dtype=float)
+                    except Exception as e:
+                        fails.append((f"{name}.compute_matrices (2D) with {what} raised {type(e).__name__}: {e}",
+                                      dict(rec, variant=j)))
+                        break
                     if zz.shape != (2,) or not same(zz, z) or not same(np.asarray(HH), np.asarray(Hm)) or \
                             not same(np.asarray(RR), np.asarray(R)):
                         fails.append((f"{name}.compute_matrices (2D) with {what}: z = {zz.tolist()} instead of the "
@@ -234,7 +242,12 @@ def model_failures(seed, n):
                 fails.append((f"{name}.compute_matrices returned data at a time without measurement", rec))
         zb, Hb, Rb = measurements.BodyVelocity(body, 0.2).compute_matrices(t, pva, em)
         for j in range(1, 4):
-            z2, H2, R2 = measurements.BodyVelocity(stored(body, j), 0.2).compute_matrices(t, pva, em)
+            try:
+                z2, H2, R2 = measurements.BodyVelocity(stored(body, j), 0.2).compute_matrices(t, pva, em)
+            except Exception as e:
+                fails.append((f"BodyVelocity.compute_matrices (2D) with columns {list(stored(body, j).columns)} raised "
+                              f"{type(e).__name__}: {e}", dict(rec, variant=j)))
+                break
             if not same(np.asarray(z2, dtype=float), np.asarray(zb, dtype=float)) or np.shape(H2) != (3, 7):
                 fails.append((f"BodyVelocity.compute_matrices (2D) depends on the storage order of the labelled "
                               f"columns {list(stored(body, j).columns)}", dict(rec, variant=j)))
